@@ -1028,6 +1028,9 @@ class Simulation:
                             f"Gradient not implemented for {n}."
                         )
 
+                # Ensure the (forward) electric fields are available.
+                self._ensure_efields()
+
                 # Compute back-propagating electric fields.
                 self._bcompute()
 
@@ -1190,6 +1193,16 @@ class Simulation:
 
         return self._misfit.data
 
+    def _ensure_efields(self):
+        """Re-compute the electric fields if they are not available.
+
+        The responses can be present without the fields, e.g., after
+        ``clean('keepresults')`` or if only the results were stored.
+        """
+        if not self.layered and any(
+                self._dict_efield[s][f] is None for s, f in self._srcfreq):
+            self.compute()
+
     def _bcompute(self):
         """Compute bfields asynchronously for all sources and frequencies."""
         from emg3d import _multiprocessing as _mp
@@ -1317,6 +1330,7 @@ class Simulation:
 
         # Ensure misfit has been computed (and therefore the electric fields).
         _ = self.misfit
+        self._ensure_efields()
 
         # Apply derivative-chain of property-map (copy to not overwrite).
         if vector.ndim == 3:
